@@ -18,6 +18,12 @@ func init() {
 func c15(c *Ctx) {
 	for s := 0; s < c.Pick(4, 30); s++ {
 		nfg, nbg := c.R.Range(2, 4), c.R.Range(1, 3)
+		// every third session has exactly one handler in each set (a set with a single handler is a natural place for
+		// a shortcut) and no keepers; the others have several scribblers plus the two keepers
+		lone := s%3 == 2
+		if lone {
+			nfg, nbg = 1, 1
+		}
 		c.Journal(fmt.Sprintf("C15 session %d: %d fg + %d bg scribbling handlers receiving tagged and untagged PRIVMSG lines", s, nfg, nbg))
 		total := nfg + nbg
 		var mu sync.Mutex
@@ -70,8 +76,10 @@ func c15(c *Ctx) {
 			keptMu.Unlock()
 		}
 		sess, err := newSession(nil, func(cn *client.Conn) {
-			cn.HandleFunc("PRIVMSG", keeper)
-			cn.HandleBG("PRIVMSG", client.HandlerFunc(keeper))
+			if !lone {
+				cn.HandleFunc("PRIVMSG", keeper)
+				cn.HandleBG("PRIVMSG", client.HandlerFunc(keeper))
+			}
 			for i := 0; i < nfg; i++ {
 				cn.HandleFunc("PRIVMSG", handler)
 			}
